@@ -7,10 +7,11 @@ Case formats (Model/Entry_C16.v; kinds 0,1,2,5,6 run in harness/src/bin/c16.rs, 
   (5 n) (6 text)                          u32 Display / FromStr
   (3 sizes_text input_text table wopts ropts)    bedGraph pipeline -> (w) | (0 chroms compressed r ((chrom start end bits) ...))
   (4 sizes_text input_text wopts ropts)          BED pipeline      -> (w) | (0 chroms compressed r output_bytes)
-    wopts = (t parallel single_pass inmemory uncompressed block_size items_per_slot zooms nzooms style via as_mode)
+    wopts = (t parallel single_pass inmemory uncompressed block_size items_per_slot zooms nzooms style via as_mode stdin)
     ropts = (t inmemory chrom start end style via)
     parallel 0 auto 1 yes 2 no; style 0 native 1 UCSC spellings; via 0 the tool's own binary, 1 `bigtools <tool>`,
-    2 `bigtools <CamelCaseTool>`, 3 a symlink with the UCSC CamelCase name; as_mode 0 none, 1 --autosql <file>, 2 -as=<dir>/my-as.as
+    2 `bigtools <CamelCaseTool>`, 3 a symlink with the UCSC CamelCase name; as_mode 0 none, 1 --autosql <file>, 2 -as=<dir>/my-as.as;
+    stdin 0 the input is a file, 1/2/3 it is piped in and named `-` / `stdin` / `/dev/stdin`
     exit classes: 0 ok, 1 error exit, 2 panic/abort, 3 timeout
 """
 import os, re, shutil, struct, subprocess, tempfile
@@ -65,10 +66,10 @@ class Runner:
     def __init__(self, bins):
         self.bins = bins
 
-    def run(self, argv, cwd):
+    def run(self, argv, cwd, stdin_path=None):
         try:
             dbg = os.environ.get("C16_DEBUG")
-            p = subprocess.run(argv, cwd=cwd, stdin=subprocess.DEVNULL, stdout=subprocess.PIPE,
+            p = subprocess.run(argv, cwd=cwd, stdin=open(stdin_path, "rb") if stdin_path else subprocess.DEVNULL, stdout=subprocess.PIPE,
                                stderr=subprocess.PIPE if dbg else subprocess.DEVNULL, timeout=TOOL_TIMEOUT)
             if dbg and p.returncode != 0:
                 with open(dbg, "a") as f: f.write("%r\nrc=%d\n%s\n\n" % (argv, p.returncode, p.stderr.decode("utf-8", "replace")[:1500]))
@@ -92,7 +93,7 @@ class Runner:
         return x[0] if x else None
 
     def writer_argv(self, tool, w, d):
-        t, par, single, inmem, unc, bs, ips, zooms, nz, style, via, as_mode = w
+        t, par, single, inmem, unc, bs, ips, zooms, nz, style, via, as_mode, stdin = w
         o = []
         if t: o += ["-t", str(t[0])]
         if par: o += [["--parallel", "auto"], ["-p", "yes"], ["--parallel", "no"]][par[0]]
@@ -108,7 +109,7 @@ class Runner:
             with open(path, "w") as f: f.write(AUTOSQL)
             o += ["-as=" + path] if as_mode == 2 else ["--autosql", path]
         if style and tool == "bedtobigbed": o += ["-tab"]
-        pos = [os.path.join(d, "in.txt"), os.path.join(d, "chrom.sizes"), os.path.join(d, "out.bbi")]
+        pos = [["", "-", "stdin", "/dev/stdin"][stdin] if stdin else os.path.join(d, "in.txt"), os.path.join(d, "chrom.sizes"), os.path.join(d, "out.bbi")]
         return self.program(tool, via, d) + (o + pos if style else pos + o)
 
     def reader_argv(self, tool, r, d):
@@ -132,7 +133,7 @@ class Runner:
             with open(os.path.join(d, "chrom.sizes"), "wb") as f: f.write(sizes)
             with open(os.path.join(d, "in.txt"), "wb") as f: f.write(text)
             wt, rt, it = ("bedgraphtobigwig", "bigwigtobedgraph", "bigwiginfo") if bg else ("bedtobigbed", "bigbedtobed", "bigbedinfo")
-            wrc, _ = self.run(self.writer_argv(wt, w, d), d)
+            wrc, _ = self.run(self.writer_argv(wt, w, d), d, os.path.join(d, "in.txt") if w[12] else None)
             if wrc != 0:
                 return sx([wrc])
             irc, info = self.run([os.path.join(self.bins, it), "--chroms", os.path.join(d, "out.bbi")], d)
@@ -172,7 +173,7 @@ class C16(Prop):
     NEED_BINS = True
     PER_CASE_TIMEOUT = 20.0
     THEOREMS = ["C16_dec_roundtrip", "C16_bed_line_roundtrip", "C16_bedgraph_line_roundtrip", "C16_bed_text_roundtrip",
-                "C16_chrom_sizes_parse", "C16_compat_ucsc", "C16_compat_native_fixed", "C16_compat_ignored_dropped",
+                "C16_chrom_sizes_parse", "C16_compat_ucsc", "C16_compat_native_fixed", "C16_compat_ignored_dropped", "C16_compat_args_tools",
                 "C16_bw_query_is_clip_filter", "C16_bb_query_is_overlap_filter", "C16_restrict_is_query_bigwig",
                 "C16_restrict_is_query_bigbed", "C16_bedgraph_roundtrip_records", "C16_bed_roundtrip_records",
                 "C16_bed_pipeline_text", "C16_bedgraph_pipeline_records"]
@@ -336,6 +337,7 @@ class C16(Prop):
         style = 1 if rng.random() < 0.4 else 0
         via = rng.choice([0, 0, 1, 2, 3])
         as_mode = 0 if bg else rng.choice([0, 0, 0, 1, 2])
+        stdin = rng.choice([1, 2, 3]) if rng.random() < 0.12 else 0
         tags = ["w-t=%s" % (t[0] if t else "default"), "parallel=%s" % (["auto", "yes", "no"][par[0]] if par else "default"),
                 "single-pass" if single else "two-pass", "w-style=%s" % ("ucsc" if style else "native"), "w-via=%d" % via]
         if inmem: tags.append("w-inmemory")
@@ -344,7 +346,8 @@ class C16(Prop):
         if ips: tags.append("items-per-slot")
         if zooms: tags.append("zooms")
         if as_mode: tags.append("autosql-file" if as_mode == 1 else "autosql-ucsc-dash-path")
-        return [t, par, single, inmem, unc, bs, ips, zooms, nz, style, via, as_mode], tags
+        if stdin: tags.append("input-stdin")
+        return [t, par, single, inmem, unc, bs, ips, zooms, nz, style, via, as_mode, stdin], tags
 
     def ropts(self, rng, per, lens):
         t = rng.choice([[1], [2], [4], [8], [16], []])
@@ -593,7 +596,7 @@ class C16(Prop):
                 if step == 1 or len(res) > 200: break
                 step //= 2
             wi = 4 if k == 3 else 3
-            dw = [[], [], 0, 0, 0, [], [], [], [], 0, 0, 0]
+            dw = [[], [], 0, 0, 0, [], [], [], [], 0, 0, 0, 0]
             dr = [[], 0, [], [], [], 0, 0]
             for j in range(len(dw)):
                 if c[wi][j] != dw[j]:
